@@ -133,6 +133,9 @@ func runCsv(cfg *config) {
 			if rr.Chance(1, 25) {
 				dst[0] = "nosuchcol"
 			}
+			if len(dst) >= 2 && rr.Chance(1, 20) {
+				dst[1] = dst[0] // a destination column named twice: every record is refused, none stored half
+			}
 			sep := []rune{',', ',', ';', '\t', '|'}[rr.Intn(5)]
 			var sb strings.Builder
 			for l, nl := 0, rr.Range(0, 12); l < nl; l++ {
